@@ -108,8 +108,9 @@ func RunStruct(e *c08reg.Entry, d []byte, gen string) StructRec {
 var boundaryU = []uint64{0, 1, 127, 128, 255, 16383, 16384, 1<<31 - 1, 1 << 31, 1<<32 - 1, 1 << 32, 1<<63 - 1, 1 << 63, 1<<64 - 1}
 
 // strings whose NFC status the model decides; the last three are not NFC-normal (the real decoder must reject them)
-var normalStrings = []string{"", "a", "token", "transfer", "pos", "caf\u00e9", "\u00c5\u00f6", "\u02ff"}
-var nonNormalStrings = []string{"e\u0301", "A\u030a", "\u212b"}
+var normalStrings = []string{"", "a", "token", "transfer", "pos", "caf\u00e9", "\u00c5\u00f6", "\u02ff",
+	"q\u0301", "x\u0323\u0301", "a\u0338", "\u1161", "\u11a8", "\uac00"} // NFC-normal with quick-check "Maybe" runes
+var nonNormalStrings = []string{"e\u0301", "A\u030a", "\u212b", "x\u0301\u0323", "\u1100\u1161"}
 
 func key(fn, wt int) []byte { return cx.Uvarint(uint64(fn)<<3 | uint64(wt)) }
 
